@@ -706,3 +706,51 @@ VP_HARNESS(h_import_diff)
   for (int v = 0; v <= 8; v++) if (c == v) diff_case(v);
   VP_WITNESS_IF(dc_runs == 1, "a case executed");
 }
+
+/* ---- C12: the copy made by hwloc_topology_dup exports the identical document; both topologies can then be destroyed in either order ------------ */
+#ifdef VP_CBMC
+void hwloc__topology_disadopt(hwloc_topology_t t) { (void) t; }
+void hwloc_backends_disable_all(struct hwloc_topology *t) { t->backends = NULL; }
+void hwloc_topology_components_fini(struct hwloc_topology *t) { (void) t; }
+void hwloc_topology_components_init(struct hwloc_topology *t) { (void) t; }
+void hwloc_set_binding_hooks(struct hwloc_topology *t) { (void) t; }
+#endif
+#ifndef DESTROY_ORDER
+#define DESTROY_ORDER 0
+#endif
+VP_HARNESS(h_xml_dup_export)
+{
+  struct hwloc_topology *A = vp_seed_build(100, 0);
+  struct vp_seed SA = vp_seed;
+#if WITH_DIST
+  { hwloc_obj_t objs[2] = { SA.numa[0], SA.numa[1] }; hwloc_uint64_t vals[4] = { 10, 20, 21, 10 };
+    hwloc_distances_add_handle_t h = hwloc_distances_add_create(A, "NUMALatency", HWLOC_DISTANCES_KIND_FROM_OS | HWLOC_DISTANCES_KIND_VALUE_LATENCY, 0);
+    VP_ASSUME(h != NULL); int r = hwloc_distances_add_values(A, h, 2, objs, vals, 0); VP_ASSUME(r == 0); r = hwloc_distances_add_commit(A, h, 0); VP_ASSUME(r == 0); }
+#endif
+#if WITH_CPUKINDS
+  { struct hwloc_infos_s inf; inf.array = NULL; inf.count = inf.allocated = 0; hwloc__add_info(&inf, "CoreType", "big");
+    hwloc_bitmap_t c0 = vp_bm(0x03), c1 = vp_bm(0x24);
+    int r = hwloc_cpukinds_register(A, c0, 3, &inf, 0); VP_ASSUME(r == 0); r = hwloc_cpukinds_register(A, c1, 7, NULL, 0); VP_ASSUME(r == 0); }
+#endif
+  vp_x_after_load(A);
+  for (unsigned i = 0; i < SA.nobj && i < VP_SEED_MAXOBJ; i++) SA.obj[i]->userdata = (void *) (0x3000 + i);
+  struct hwloc_topology *B = NULL;
+  int r = hwloc_topology_dup(&B, A);
+  VP_CHECK(r == 0 && B != NULL && B != A, "dup succeeds");
+  if (r) return;
+  cmp_topology(A, B, 0);
+  VP_CHECK(B->levels[0][0]->userdata == A->levels[0][0]->userdata && B->levels[B->nb_levels - 1][0]->userdata == A->levels[A->nb_levels - 1][0]->userdata, "dup: object userdata pointers copied verbatim");
+  struct tt_elem *XA = tt_export_topology(A, 0), *XB = tt_export_topology(B, 0);
+  VP_CHECK(!tt_overflow, "harness: element tree capacities suffice");
+#ifndef VP_CBMC
+  if (!tt_equal(XA, XB)) tt_diff(XA, XB, 0);
+#endif
+  VP_CHECK(tt_equal(XA, XB), "dup: the copy exports the identical XML document");
+  /* no mutable storage is shared: both can be destroyed in any order (a block shared by the two would be freed twice) */
+#if DESTROY_ORDER == 0
+  hwloc_topology_destroy(A); hwloc_topology_destroy(B);
+#else
+  hwloc_topology_destroy(B); hwloc_topology_destroy(A);
+#endif
+  VP_WITNESS("dup, compare, export twice, destroy both");
+}
